@@ -9,7 +9,8 @@
 (***************************************************************************)
 EXTENDS OciFilterMC, Json
 
-CONSTANT GenWhat      \* which families of cases to print
+CONSTANTS GenWhat,     \* which families of cases to print
+          GenFull      \* FALSE: the reduced enumeration of the quick tier
 
 Case(k, pop, pol, allow, sc, ops) ==
   [kind |-> k, imm |-> FALSE, pop |-> pop, pol |-> pol, allow |-> allow,
@@ -18,26 +19,31 @@ AllOk == TableOf(<<>>)
 Vals == {PolOk} \cup ErrIds
 \* every method on r1, mounts between r1 and r2, under every assignment of the entries involved
 OpsEntries == ({"r1"} \X Kinds) \cup ({"r2"} \X {"Read", "Write"})
-CheckerOpsSeq == OpsSeqOn("r1") \o <<Mount("r1", "r2"), Mount("r2", "r1"), Mount("r1", "r1"), Mount("r3", "r1")>> \o ReadsOn("r2")
+CheckerOpsSeq == OpsSeqOn("r1") \o <<Mount("r1", "r2"), Mount("r2", "r1"), Mount("r1", "r1"), Mount("r3", "r1")>>
+                 \o (IF GenFull THEN ReadsOn("r2") ELSE <<>>)
 CheckerOpsCases == {Case("checker", {"r1", "r2", "r3"}, TableOf(f), {}, NoScope, CheckerOpsSeq) : f \in [OpsEntries -> Vals]}
 \* listings: every populated subset x every subset allowed for Read (List on the items is always
 \* refused, which is not what a listing consults) x "*" listable or not
-ListSeq == <<[op |-> "ListRepos", startpos |-> 0], [op |-> "ListRepos", startpos |-> 3], [op |-> "ListRepos", startpos |-> 4]>>
+ListSeq == <<[op |-> "ListRepos", startpos |-> 0], [op |-> "ListRepos", startpos |-> 3]>>
+           \o (IF GenFull THEN <<[op |-> "ListRepos", startpos |-> 4]>> ELSE <<>>)
 ListTable(allowR, star, e) ==
   [n \in Repos \cup {Star} |-> [k \in Kinds |->
      IF n = Star THEN (IF k = "List" THEN star ELSE e)
      ELSE IF k = "Read" THEN (IF n \in allowR THEN PolOk ELSE e) ELSE IF k = "List" THEN e ELSE PolOk]]
 CheckerListCases ==
-  {Case("checker", pop, ListTable(allowR, star, CHOOSE e \in ErrIds : TRUE), {}, NoScope, ListSeq) :
-     pop \in SUBSET Repos, allowR \in SUBSET Repos, star \in {PolOk, CHOOSE e \in ErrIds : TRUE}}
+  UNION {{Case("checker", pop, ListTable(allowR, star, CHOOSE e \in ErrIds : TRUE), {}, NoScope, ListSeq) :
+             star \in (IF GenFull \/ pop = Repos THEN {PolOk, CHOOSE e \in ErrIds : TRUE} ELSE {PolOk})} :
+           pop \in SUBSET Repos, allowR \in SUBSET Repos}
 SelectListCases ==
-  {Case("select", pop, SelPol(allow, Repos), allow, NoScope, ListSeq) : pop \in SUBSET Repos, allow \in SUBSET (Repos \cup {Star})}
+  UNION {{Case("select", pop, SelPol(allow, Repos), allow, NoScope, ListSeq) :
+             allow \in {a \in SUBSET (Repos \cup {Star}) : Star \in a => (GenFull \/ pop = Repos)}} :
+           pop \in SUBSET Repos}
 SelectOpsCases ==
   {Case("select", {"r1", "r2", "r3"}, SelPol(allow, Repos), allow, NoScope, CheckerOpsSeq) : allow \in SUBSET {"r1", "r2"}}
 \* Sub: every enumerated caller string x every method (and mounts against a good name)
 SubSeqFor(n) == OpsSeqOn(n) \o <<Mount(n, "a"), Mount("a", n), Mount(n, n)>>
 SubNameCases ==
-  {Case("sub", Repos, <<>>, {}, RichScope, SubSeqFor(n)) : n \in {x.s : x \in AllNames}}
+  {Case("sub", Repos, <<>>, {}, RichScope, SubSeqFor(n)) : n \in {x.s : x \in (IF GenFull THEN AllNames ELSE N1 \cup N2 \cup Aimed)}}
   \cup {Case("sub", Repos, <<>>, {}, sc, SubSeqFor(n)) : sc \in MCScopes, n \in {"a", "b", "..", "../fooey", "a/../../fooey", ""}}
 SubListCases ==
   {Case("sub", pop, <<>>, {}, sc, [i \in 1..(2 * Cardinality(ViewRepos) + 2) |-> [op |-> "ListRepos", startpos |-> i - 1]]) :
